@@ -427,6 +427,28 @@ let do_playout fields =
     go p0 [] n []
   | _ -> emit "G" "illegal-root"
 
+let do_roots fields =
+  let toks = String.split_on_char ' ' (List.nth fields 1) in
+  let cmds = List.map str_of_string toks in
+  (match play_out_position zt cmds with
+   | Ok (b, _) -> emit "M" ("roots " ^ String.concat "," (List.sort compare (List.map model_uci (generate_moves zt b AllMoves))))
+   | _ -> emit "M" "roots PANIC");
+  (* spec: the rules applied to the start position, then the legal moves of the position reached *)
+  let start_fen =
+    (match toks with
+     | _ :: "fen" :: a :: b :: c :: d :: e :: f :: _ -> String.concat " " [a; b; c; d; e; f]
+     | _ -> string_of_str dEFAULT_FEN_STRING) in
+  let rec after = function [] -> [] | "moves" :: r -> r | _ :: r -> after r in
+  (match from_fen zt (str_of_string start_fen) with
+   | Ok b0 ->
+     let rec go p = function
+       | [] -> Some p
+       | mv :: rest -> (match parse_move_text mv with None -> None | Some m -> go (apply p m) rest) in
+     (match go (abs0 b0) (after toks) with
+      | None -> emit "S" "roots PANIC"
+      | Some p -> emit "S" ("roots " ^ String.concat "," (List.sort compare (List.map move_text (legal_moves p)))))
+   | _ -> emit "S" "roots PANIC")
+
 let do_legal fields =
   match from_fen zt (str_of_string (List.nth fields 1)) with
   | Ok b ->
@@ -452,6 +474,7 @@ let () =
              | "eval" -> do_eval fields
              | "chk" -> do_chk fields
              | "pos" -> do_pos fields
+             | "roots" -> do_roots fields
              | "playout" -> do_playout fields
              | "legal" -> do_legal fields
              | "search" -> do_search fields
